@@ -273,11 +273,18 @@ func report(r *core.Result, t *tm.Term, extra map[string]interface{}, eval func(
 		if keyOf(eval(sib)) != clause {
 			// the failure disappears with the quirk-free sibling: this is
 			// the documented quirk, keyed by clause and quirk op only.
-			k := clause + "|quirk:" + q.Name
+			k := "quirk:" + q.Name
 			minCache[pre] = k
 			r.Violate(k, textOf(m)+"\nterm: "+t.String()+"\n(the same term with "+q.QuirkOf+" instead of "+q.Name+" passes)", map[string]interface{}{"term": t, "expr": t.String()})
 			return false
 		}
+	}
+	if strings.Contains(clause, "|") {
+		// the clause already names the culprit layer (type family where
+		// observation and expectation first diverge): that is the signature
+		minCache[pre] = clause
+		r.Violate(clause, textOf(m)+"\nterm: "+t.String(), map[string]interface{}{"term": t, "expr": t.String()})
+		return false
 	}
 	mt := minimize(t, clause, eval)
 	k := clause + "|" + skeleton(mt)
@@ -320,3 +327,5 @@ func typeTail(s string) string {
 	}
 	return s
 }
+
+func jsonUnmarshal(b []byte, v interface{}) error { return json.Unmarshal(b, v) }
